@@ -84,5 +84,11 @@ CHECKS = {
   "text": "Proved for ALL corners, rotations and query points: each edge half-plane of the rectangle's own vertices equals side length x signed distance of the un-rotated point (ring identity modulo c^2+s^2=1) and the real containment test is the sign test on those distances; circle containment is the open disc; the circle border point is pos + ratio*r*(cos,sin)(angle); random points in a circle/rectangle satisfy their bounds for every value of the uninterpreted draws. Hexagon containment (matplotlib Path), the generic nearest-two-vertices border-point construction, rejection-sampled users (incl. 3-sector cells after setter histories) and the ring-by-ring cluster placement are trigonometry with float tolerances behind an external library: they are bounded checks on rotation/radius/size grids, never counted as proved - hence 'other'. One known finding: border points of non-square rectangles.",
   "note": "Ideal reals, cos/sin uninterpreted with Pythagoras, symmetry and the value at 0; matplotlib Path external; grids bounded as stated in the evidence.",
  },
+ "C20": {
+  "category": "proof",
+  "technique": "contract-based deductive verification: real Projection/metrics/selector/Sherman-Morrison/conversion code on matrices with symbolic entries; exact numerator/denominator bookkeeping so that matrix identities become cross-multiplied polynomial identities (ring normal form, z3); svd/eig/norm/inv used through library contracts; bounded native kernels check",
+  "text": "For symbolic complex n x 1 (n <= 3) and real 3 x 2 / 2 x 2 matrices the real Projection object satisfies Q^H=Q, Q^2=Q, QA=A, oQ=I-Q, oQ A=0, project+oProject=M, reflect twice = identity, also after earlier reflect calls on the same object; the projector-form chordal distance is ||P_A-P_B||_F/sqrt 2 with symmetric, zero and basis-change properties on the norm argument; peig/leig/least_right_singular_vectors/get_principal_component_matrix select exactly what their names say from arbitrary (symbolic) svd/eig factors, every ordering explored; the Sherman-Morrison diagonal update times (A+diag d) is the identity; dB/linear/dBm/EbN0 conversions are mutually inverse for all reals. GMD, QR/angle-based distances, whitening and float conversions are bounded native checks; two known findings (whitening with repeated eigenvalues, wide-matrix selector).",
+  "note": "Sizes configuration-concrete (entries symbolic); inverse via adjugate contract with det != 0 required; svd/eig/norm as library contracts; gmd and whitening only bounded.",
+ },
 }
 NOT_APPLICABLE = {}
